@@ -1489,11 +1489,15 @@ class System:
         phase_names = list(self._g.attrs["phases"].keys())
         self._set_phase_lkup()
         src_cnt = 0
+        ndomain = {}
         for n in self._topo_nodes:
             tname = self._g[n]._component_type.name
+            if self._parents[n] != -1:
+                dname = ndomain.get(self._parents[n][0], dname)
             if tname == "SOURCE":
                 dname = self._g[n]._params["name"]
                 src_cnt += 1
+            ndomain[n] = dname
             ph_names = []
             if tname == "SLOSS":
                 ph_names += ["N/A"]
